@@ -378,7 +378,7 @@ func mavenEntries() []c04Entry {
 
 func c04Groups() []*c04Group {
 	verTok := []string{"1", "0", "01", "10", "99999999999999999999", "9223372036854775807", ".", "-", "+", "v", "a", "rc", "*", "x", "!", "_", "∞", "é", "\xff", " ", "dev", "post", "SNAPSHOT"}
-	conTok := []string{"1", "1.2", "1.2.3-a", "*", "x", ">=", "<", "=", "==", "!=", "^", "~", "~>", "~=", "||", ",", " ", "-", "[", "]", "(", ")", "{", "}", ":", "∞", "<empty>", "é", "\xff", "v"}
+	conTok := []string{"1", "1.2", "1.2.3-a", "1.2.3.4", "1..2", " - ", "*", "x", ">=", "<", "=", "==", "!=", "^", "~", "~>", "~=", "||", ",", " ", "-", "[", "]", "(", ")", "{", "}", ":", "∞", "<empty>", "é", "\xff", "v"}
 	pyTok := []string{"foo", "A.b_c", "[", "]", "x", ",", "(", ")", ">=1.0", "==", "1.0", ";", "extra", "'x'", "\"", " ", "\t", "@", "python_version", "<", "and", "or", "é", "\xff", "-", ".whl", ".tar.gz", "-1.0", "py3-none-any", "\n", ":"}
 	markTok := []string{"python_version", "extra", "os_name", "==", "!=", "<", ">=", "~=", "===", "in", "not in", "not", "and", "or", "(", ")", "'3.8'", "\"x\"", "'", " ", "é", "\xff", "1", ",", ";"}
 	pomTok := []string{"<project>", "</project>", "<properties>", "</properties>", "<a>", "</a>", "<dependencies><dependency>", "</dependency></dependencies>", "<version>", "</version>", "<groupId>g</groupId><artifactId>x</artifactId>", "x", "${a}", "${", "}", "<!--", "-->", "]]>", "<![CDATA[", "&amp;", "&", "<", ">", "é", "\xff", "<optional>", "true", "<parent>", "</parent>", "<profiles><profile><activation><jdk>", "</jdk></activation></profile></profiles>", "[1.8,)", "!"}
